@@ -67,6 +67,10 @@ fn control_flow(ctx: &Ctx, homes: &(dyn Fn(Kind) -> bool + Sync), rich_entries: 
     // histories: every state reachable by <= depth small transactions x all small programs
     let reach = reachable_starts(ctx, &starts.genesis, reach_depth, homes, &mut st);
     st = st.merge(drive(ctx, &Core::new(1, reach_hi), &reach, false, homes, &sampler));
+    // reply handlers that dispatch again: a dispatcher M (called as a sub-message itself, so that what
+    // it produced is told to an outer reply) whose reply handler R1 sends a sub-message with a reply R2;
+    // every reply_on at the three levels x outcome of both callees x data set / not set by R1 and R2
+    st = st.merge(reply_chain_stage(ctx, &starts.genesis, homes));
     let nstarts = all.len() + reach.len();
     // contracts built through ContractWrapper: what the Reply envelope carries for every kind of
     // sub-message (C03) / a dispatcher without a reply entry point absorbs nothing (C02)
@@ -84,6 +88,48 @@ fn control_flow(ctx: &Ctx, homes: &(dyn Fn(Kind) -> bool + Sync), rich_entries: 
         vec![],
         json!({}),
     )
+}
+
+fn reply_chain_stage(ctx: &Ctx, genesis: &StartState, homes: &(dyn Fn(Kind) -> bool + Sync)) -> TreeStats {
+    let mut st = TreeStats::default();
+    let mut n = 0u64;
+    with_world(false, |world| {
+        let ad = Addrs::of(world);
+        let modes = [Mode::Success, Mode::Always, Mode::Error];
+        for mo in modes {
+            for m1 in modes {
+                for m2 in modes {
+                    for bits in 0..16u8 {
+                        let (l_fail, l2_fail, r1_data, r2_data) = (bits & 1 != 0, bits & 2 != 0, bits & 4 != 0, bits & 8 != 0);
+                        let mut nodes: Vec<Node> = (0..7)
+                            .map(|i| {
+                                let mut nd = Node::default();
+                                standard_node(i, &mut nd);
+                                nd
+                            })
+                            .collect();
+                        nodes[2].fail = l_fail;
+                        nodes[4].fail = l2_fail;
+                        if !r1_data {
+                            nodes[3].data = None;
+                        }
+                        if !r2_data {
+                            nodes[5].data = None;
+                        }
+                        let call = |node: usize| Msg::Call { target: Target::Other, funds: vec![], node };
+                        nodes[0].subs.push(Sub { id: 1, payload: b"outer".to_vec(), reply_on: mo, msg: call(1), reply: Some(6) });
+                        nodes[1].subs.push(Sub { id: 2, payload: vec![], reply_on: m1, msg: call(2), reply: Some(3) });
+                        nodes[3].subs.push(Sub { id: 3, payload: b"again".to_vec(), reply_on: m2, msg: call(4), reply: Some(5) });
+                        let prog = Program { entry: entry_of("execute", &ad), root: 0, nodes };
+                        run_one(ctx, world, "reply-chain", genesis, prog, homes, &mut st, "");
+                        n += 1;
+                    }
+                }
+            }
+        }
+    });
+    *st.per_family.entry("reply-chain (reply handlers that dispatch again, 7 nodes) x 1 start states".into()).or_default() += n;
+    st
 }
 
 pub fn run_c02(ctx: &Ctx) -> i32 {
